@@ -37,7 +37,7 @@ PixEntries(e) == {i \in 1..Len(e.bat) : KindOfTypeString(e.bat[i].type) = "pix"}
 (* ---- the clauses ------------------------------------------------------------------------ *)
 Holds(c, e) ==
     CASE c = "header_is_horace_4_0" ->
-            e.hdr.name = "horace" /\ e.hdr.v4 /\ e.hdr.len = HeaderLen /\ e.hdr.type = 1
+            e.hdr.name = "horace" /\ e.hdr.v4 /\ e.hdr.len = HeaderLen
       [] c = "file_has_one_byte_order_and_it_is_the_requested_one" -> e.dec_bo = e.bo
       [] c = "reopened_with_written_byte_order" ->
             e.open.out = "ok" => (e.open.bo = e.bo /\ DeducedOrder(e.bo) = e.open.bo)
@@ -60,7 +60,6 @@ Holds(c, e) ==
       [] c = "declared_type_matches_block" ->
             \A i \in 1..Len(e.bat) :
                 NameOf(e.bat[i]) \in AllNames => e.bat[i].type = TypeString(Kind(NameOf(e.bat[i])))
-      [] c = "no_block_locked" -> \A i \in 1..Len(e.bat) : e.bat[i].locked = 0
       [] c = "extents_start_after_table" -> StartsAt(BatExt(e), e.batend)
       [] c = "extents_contiguous_disjoint" -> Contiguous(BatExt(e))
       [] c = "extents_end_at_eof" -> EndOf(BatExt(e), e.batend) = e.flen
@@ -89,7 +88,7 @@ Clauses == <<"header_is_horace_4_0", "file_has_one_byte_order_and_it_is_the_requ
              "open_succeeds", "reopened_with_written_byte_order", "open_reports_the_header",
              "open_lists_the_table_blocks", "table_parses", "table_length_as_documented",
              "each_block_once", "table_order_independent_of_call_order",
-             "declared_type_matches_block", "no_block_locked", "extents_start_after_table",
+             "declared_type_matches_block", "extents_start_after_table",
              "extents_contiguous_disjoint", "extents_end_at_eof", "computed_sizes",
              "block_decodes_within_extent", "block_holds_declared_type",
              "log_no_unwritten_holes", "log_pix_extent_fully_written">>
@@ -107,10 +106,10 @@ TNext == /\ l <= Len(Tr)
          /\ LET e == Tr[l]
                 f == Failing(e)
             IN /\ nbad' = IF f = <<>> THEN nbad ELSE nbad + 1
-               /\ (f = <<>> \/ PrintT(<<"REJECT", l, e.tid, f>>))
                /\ IF e.out = "ok" /\ e.hdrok /\ e.batok
                   THEN lastgid' = e.gid /\ lastnames' = BatNames(e)
                   ELSE UNCHANGED <<lastgid, lastnames>>
+               /\ IF f = <<>> THEN TRUE ELSE PrintT(<<"REJECT", l, e.tid, f>>)
 TSpec == TInit /\ [][TNext]_tvars
 Done == (l = Len(Tr) + 1) => PrintT(<<"DONE", l - 1, nbad>>)
 =============================================================================
